@@ -40,7 +40,7 @@ def effective(cfgset):
     return eff_ll, eff_nf, eff_fs, cap
 
 
-def build(line_len, nfields, field_len, body, underscore=0, long_underscore=False):
+def build(line_len, nfields, field_len, body, underscore=0, long_underscore=False, pad=None):
     """Well-formed request: request line of exactly line_len bytes (>= 14), nfields field lines, the
     longest exactly field_len bytes (others short); `underscore` of them have an underscore name."""
     pad = line_len - len(b"POST / HTTP/1.1")
@@ -70,7 +70,19 @@ def build(line_len, nfields, field_len, body, underscore=0, long_underscore=Fals
             return None
         if k < len(need):
             return None
-        fields[k] = name + b":" + b"v" * (field_len - len(name) - 1)
+        room = field_len - len(name) - 1
+        if pad is None:
+            fields[k] = name + b":" + b"v" * room
+        elif room < 2:
+            return None
+        elif pad == "trailing":         # the field line is as long as it is, whatever it consists of: blanks in front of the line end
+            fields[k] = name + b":v" + b" " * (room - 1)
+        elif pad == "trailing-tabs":
+            fields[k] = name + b":" + b"v" * (room // 2) + b"\t" * (room - room // 2)
+        elif pad == "leading":
+            fields[k] = name + b":" + b" " * (room - 1) + b"v"
+        else:                           # nothing but blanks
+            fields[k] = name + b":" + b" " * room
     head = b"POST " + target + b" HTTP/1.1\r\n" + b"".join(f + b"\r\n" for f in fields) + b"\r\n"
     return head + (body or b"")
 
@@ -155,8 +167,16 @@ def run_part_a(run, e1, cell, rng, tier):
     PROXY_LINES = {"short": b"PROXY TCP4 1.2.3.4 5.6.7.8 11 22\r\n",
                    "long": b"PROXY TCP6 ffff:ffff:ffff:ffff:ffff:ffff:ffff:ffff ffff:ffff:ffff:ffff:ffff:ffff:ffff:fff0 65535 65534\r\n"}
     for body in (None, b"hello-body"):
-        for hm, under in (("drop", 0), ("drop", 1), ("refuse", 0), ("drop", "long"), ("proxy-short", 0), ("proxy-long", 0), ("folded", 0)):
+        for hm, under in (("drop", 0), ("drop", 1), ("refuse", 0), ("drop", "long"), ("proxy-short", 0), ("proxy-long", 0), ("folded", 0),
+                          ("pad-trailing", 0), ("pad-trailing-tabs", 0), ("pad-leading", 0), ("pad-blank", 0)):
             cs = dict(cfgset)
+            pad = None
+            if hm.startswith("pad-"):
+                if el != "fsize" or F is None:
+                    continue
+                pad = hm[4:]
+                hm = "drop"
+                run.count("A_long_field_made_of_blanks_cases")
             proxy_line = b""
             folded = False
             if hm == "folded":
@@ -179,7 +199,7 @@ def run_part_a(run, e1, cell, rng, tier):
                 continue
             if under == "long" and F is None:
                 continue
-            s = build(L, n, F, body, underscore=1 if under == 1 else 0, long_underscore=(under == "long"))
+            s = build(L, n, F, body, underscore=1 if under == 1 else 0, long_underscore=(under == "long"), pad=pad)
             if s is None:
                 continue
             if folded:
@@ -229,7 +249,7 @@ def run_part_a(run, e1, cell, rng, tier):
             served, refused_for_size = None, None
             for cuts in segs:
                 obs = e1.observe(cfg, gen.cut(stream, cuts), **({"peer": ("127.0.0.1", 5000)} if proxy_line else {}))
-                run.case(("A", json.dumps(cs, sort_keys=True), el, d, body is not None, str(under), len(cuts), tuple(cuts[:2])))
+                run.case(("A", json.dumps(cs, sort_keys=True), el, d, body is not None, str(under), pad, len(cuts), tuple(cuts[:2])))
                 accepted = bool(obs["reqs"]) and obs["reqs"][0]["uri"].startswith("/p") or \
                     (bool(obs["reqs"]) and obs["reqs"][0]["uri"] == "/")
                 run.count("A_" + want)
@@ -492,7 +512,7 @@ def main(tier, seed):
     q = tier == "quick"
     shards = [{"kind": "A", "sub": i, "of": 16, "seed": seed, "tier": tier} for i in range(16)]
     shards += [{"kind": "A2", "cfg": cs, "sub": i, "seed": seed, "tier": tier} for i, cs in enumerate(A2_CFGS)]
-    run.require("A2_served_in_full")
+    run.require("A2_served_in_full", "A_long_field_made_of_blanks_cases")
     rng = rng_for(seed, "c12-main")
     for name in FLOODS:
         for cfgset in FLOOD_CFGS:
